@@ -1,6 +1,7 @@
 import RuxModel.Drv.Common
 import RuxModel.Drv.Lru
 import RuxModel.Drv.Route
+import RuxModel.Drv.Gates
 /-
   Line-protocol driver: `driver <engine>` reads op lines on stdin and answers one line per op.
   Lines starting with `#` are echoed (they separate cases and carry comments).
@@ -23,7 +24,8 @@ partial def loop (e : Engine) (hin hout : IO.FS.Stream) (s : e.σ) : IO Unit := 
 
 def engines : List (String × Engine) := [
   ("lru", lruEngine),
-  ("route", routeEngine)
+  ("route", routeEngine),
+  ("gates", gatesEngine)
 ]
 
 def main (args : List String) : IO UInt32 := do
